@@ -37,7 +37,21 @@ func magnitude(v ssa.Value, memo map[ssa.Value]float64, depth int) float64 {
 	return m
 }
 
+// fieldDomain: largest value a parsed count can take on the properties' domains (instants up to 24 h;
+// TTML tick rates up to the 10 MHz used by Windows/MediaFoundation style documents; frame rates up to 120).
+var fieldDomain = map[string]float64{
+	"TTMLInDuration.ticks":     8.64e11, // 24 h at 10 MHz
+	"TTMLInDuration.tickrate":  1e7,
+	"TTMLInDuration.frames":    120,
+	"TTMLInDuration.framerate": 120,
+}
+
 func magnitude1(v ssa.Value, memo map[ssa.Value]float64, depth int) float64 {
+	if t, f, _ := loadedField(v); f != "" {
+		if d, ok := fieldDomain[t+"."+f]; ok {
+			return d
+		}
+	}
 	leaf := func() float64 {
 		if isDurationT(v.Type()) {
 			return domain24h
@@ -101,6 +115,7 @@ func magnitude1(v ssa.Value, memo map[ssa.Value]float64, depth int) float64 {
 func ruleNoOverflow(names ...string) func(p *Prog, l *Ledger, tier string) {
 	return func(p *Prog, l *Ledger, tier string) {
 		const rule = "E3d.no-overflow"
+		defer func() { l.Min(rule, 1, 1) }()
 		n := 0
 		for _, name := range names {
 			root := anchor(p, l, rule, name)
@@ -128,7 +143,7 @@ func ruleNoOverflow(names ...string) func(p *Prog, l *Ledger, tier string) {
 						if bound <= math.MaxInt64 {
 							l.Prove(rule, FnName(fn), key, p.Pos(m.Pos()), fmt.Sprintf("|product| ≤ %.3g < 2^63 for inputs within 24h", bound))
 						} else {
-							l.Fail(rule, FnName(fn), key, p.Pos(m.Pos()), fmt.Sprintf("%s: the integer product %s × %s can reach %.3g for instants within 24 hours, beyond 2^63−1 ≈ 9.22e18: it overflows and the corrected times are garbage for hour-scale programmes", FnName(fn), descOf(m.X), descOf(m.Y), bound))
+							l.Fail(rule, FnName(fn), key, p.Pos(m.Pos()), fmt.Sprintf("%s: the integer product %s × %s can reach %.3g for instants within 24 hours, beyond 2^63−1 ≈ 9.22e18: it overflows (wraps to a wrong, possibly negative time) for inputs inside the property's domain", FnName(fn), descOf(m.X), descOf(m.Y), bound))
 						}
 					}
 				}
